@@ -1,4 +1,4 @@
-SPECIFICATION Spec
+SPECIFICATION SpecW
 CONSTANTS
   Repos = {"r1", "r2"}
   Tags = {"t1"}
